@@ -1140,7 +1140,7 @@ func funMin(nums ...*decimal.Big) (*decimal.Big, error) {
 }
 
 func funRound(v *decimal.Big) (*decimal.Big, error) {
-	return newDecimalBig().Round(0), nil
+	return newDecimalBig().Copy(v).RoundToInt(), nil
 }
 
 func funRoundBank(v *decimal.Big) (*decimal.Big, error) {
